@@ -216,6 +216,22 @@ CLAIMED = {
                  "Pipe targets are limited to 7. Early-exit completeness is timing-dependent and sampled (2 attempts, one on GOMAXPROCS=1)."),
         "design_ref": "DESIGN.md section 4 C20",
     },
+    "C17": {
+        "level": "fault_enumeration",
+        "engine": "pbt-cli+sysfault",
+        "technique": "fault injection: Hypothesis-generated (chain, input) cases crossed with enumerated fault kinds, positions relative to the batch boundary, batch sizes and seeded schedule perturbations (-tags verif hook); errno injection at every write via a ptrace supervisor; oracle = non-zero exit + diagnostic + termination",
+        "text": ("Fault kinds x positions per generated case: missing file / directory / dangling symlink at index j of n under 11 readers; corrupt and truncated "
+                 "gz/bz2/zlib (by extension and --gzin); failing/missing prepipes; malformed CSV (ragged, short, open quote), TSV, JSON (syntax, non-object, "
+                 "truncated), YAML at record k in {1, b-1, b, b+1, last, mid} for batch sizes b in {1,2,4,500} incl. rows 499-501 of 1003; DSL failures (typed "
+                 "assignment, asserting_*, -x data error, function return type; in begin/end) at record k with the failing verb at chain position 1-3; failing "
+                 "verbs (join left file, template file, tee/split to unwritable path); CSV/TSV key change on stdout and on tee/split/emit/tee-redirect targets "
+                 "(last record repeated 4x); stdout=/dev/full; stdout pipe closed early; redirects to unwritable paths; pipe sinks that fail; split -n chunk on "
+                 "/dev/full; plus ENOSPC/EIO injected at every write/openat/close of the fault-free run for stdout, tee, split and redirect destinations. Each "
+                 "under GOMAXPROCS 1/16/default and 10 schedule profiles (untargeted and targeted at the error-post / EOS-forward / writer-done / select sites)."),
+        "note": ("Interleavings are sampled, not enumerated (the Go scheduler is not under harness control; the hook widens the explored set). Known findings matched by exact "
+                 "predicates: failing prepipe and failing pipe sink exit 0. DKVPX/NIDX/DKVP/XTAB have no documented malformed inputs and are used for the other fault kinds only."),
+        "design_ref": "DESIGN.md section 4 C17, section 5",
+    },
 }
 
 NOT_YET = "check not built yet in this session (see DESIGN.md section 8 build order); will be claimed when its sub-checks run"
